@@ -23,7 +23,7 @@ inductive Prog where
   | seq (p q : Prog)
   | branch (p q : Prog)                  -- either (if/else, try/except, early exit)
   | loop (p : Prog)                      -- zero or more times
-deriving Repr, Inhabited
+deriving Repr, Inhabited, DecidableEq
 
 /-! ### concrete semantics -/
 
